@@ -2,17 +2,19 @@
 # Self-test of the machinery (run after every engine or contract change):
 #   must-fail: every seeded change, and every repaired defect re-introduced (the reverse of its fix: commit), must be
 #              reported as a VIOLATION of its property;
-#   must-pass: every harmless edit under /verif/selftest/harmless must leave its property's check clean.
+#   must-pass: every harmless edit under $V/selftest/harmless must leave its property's check clean.
 # Usage: selftest.sh [seeds|reverts|harmless|all]   (default: reverts harmless)
-cd /verif
+V="${VERIF_HOME:-/verif}"; R="${VERIF_REPO:-/repo}"
+cd "$V"
+mkdir -p "$V/out"
 what="${*:-reverts harmless}"
 [ "$what" = all ] && what="seeds reverts harmless"
 fail=0
-if [ -n "$(git -C /repo status --porcelain)" ]; then echo "REFUSED: /repo has uncommitted changes"; exit 2; fi
+if [ -n "$(git -C "$R" status --porcelain)" ]; then echo "REFUSED: /repo has uncommitted changes"; exit 2; fi
 run() { # name prop patchfile expect(violation|clean)
-  git -C /repo apply "$3" || { echo "APPLY-FAILED $1"; fail=1; return; }
+  git -C "$R" apply "$3" || { echo "APPLY-FAILED $1"; fail=1; return; }
   out=$(bin/check $2 -no-evidence 2>&1); rc=$?
-  git -C /repo checkout -- .
+  git -C "$R" checkout -- .
   n=$(echo "$out" | grep -c '^VIOLATION')
   if [ "$4" = violation ]; then
     if [ $rc -eq 1 ] && [ $n -gt 0 ]; then echo "ok   must-fail $1 ($2): $(echo "$out" | grep '^VIOLATION' | head -1 | sed 's/.*\(obligation\|bounded\)=//' | cut -c1-90)"; else echo "FAIL must-fail $1 ($2): not reported (rc=$rc)"; fail=1; fi
@@ -22,14 +24,14 @@ run() { # name prop patchfile expect(violation|clean)
 }
 for w in $what; do case $w in
 seeds)
-  for d in seeded/*/; do s=$(basename $d); p=$(python3 -c "import json;print(json.load(open('$d/meta.json'))['property'])"); run $s $p /verif/$d/patch.diff violation; done;;
+  for d in seeded/*/; do s=$(basename $d); p=$(python3 -c "import json;print(json.load(open('$d/meta.json'))['property'])"); run $s $p $V/$d/patch.diff violation; done;;
 reverts)
   while read -r _ prop hash rest; do
-    p=${prop#property=}; tmp=/verif/out/revert-$hash.diff
-    git -C /repo diff $hash $hash^ > $tmp
+    p=${prop#property=}; tmp=$V/out/revert-$hash.diff
+    git -C "$R" diff $hash $hash^ > $tmp
     run revert-$hash $p $tmp violation
   done < <(grep '^fixed:' known_findings.txt);;
 harmless)
-  for f in /verif/selftest/harmless/*.diff; do n=$(basename $f .diff); p=$(head -1 /verif/selftest/harmless/$n.txt); run $n $p $f clean; done;;
+  for f in $V/selftest/harmless/*.diff; do n=$(basename $f .diff); p=$(head -1 $V/selftest/harmless/$n.txt); run $n $p $f clean; done;;
 esac; done
 exit $fail
